@@ -6,8 +6,8 @@
     operations (checkouts with any candidate order / outcome function / clock, failures of
     checked-out servers, admin BAN / UNBAN) on a new pool with ANY address list [servers c] (any
     number of shards, replicas, primaries).  [wf_order]: the order is a rearrangement of the
-    candidates — every result of shuffle / sort, i.e. both load-balancing modes.  [outs], [now]:
-    arbitrary.  [wfc c]: the addresses of the pool are pairwise different. *)
+    candidates — every result of shuffle / sort, i.e. both load-balancing modes.  [outs] and the
+    clock readings [tc] (in try_unban) and [bc] (in ban), one pair per address: arbitrary.  [wfc c]: the addresses of the pool are pairwise different. *)
 From Coq Require Import ZArith List Bool Arith.
 From PV Require Import Ban.Model Ban.Proofs Ban.Tie.
 Import ListNotations.
@@ -28,9 +28,9 @@ Print Assumptions c07_all_banned_count_exact.
 
 (** A handed-out server is not banned afterwards, is a candidate of the requested role / shard,
     was contacted, and its checkout passed (health check passed when one was due). *)
-Theorem c07_returned_not_banned : forall c bl req shard order outs now a ct bl', reachable c bl ->
+Theorem c07_returned_not_banned : forall c bl req shard order outs tc bc a ct bl', reachable c bl ->
   wf_order c req shard order ->
-  get c req shard order outs now bl = (Ok a, ct, bl') ->
+  get c req shard order outs tc bc bl = (Ok a, ct, bl') ->
   ~ In a (keys bl') /\ In a (candidates c req (effective_sel c shard)) /\ passes (outs a) /\ In a ct.
 Proof. exact returned_not_banned. Qed.
 Print Assumptions c07_returned_not_banned.
@@ -38,20 +38,20 @@ Print Assumptions c07_returned_not_banned.
 (** A banned replica whose ban has not run out is contacted (checkout, health check, hence any
     client statement) only with evidence that its whole shard is down: every replica of the shard
     was banned before this checkout or was contacted by it and not handed out. *)
-Theorem c07_banned_bypassed : forall c bl req shard order outs now res ct bl', wfc c -> reachable c bl ->
+Theorem c07_banned_bypassed : forall c bl req shard order outs tc bc res ct bl', wfc c -> reachable c bl ->
   wf_order c req shard order ->
-  get c req shard order outs now bl = (res, ct, bl') ->
-  forall a, is_banned a bl = true -> expired c now bl a = false -> In a ct ->
+  get c req shard order outs tc bc bl = (res, ct, bl') ->
+  forall a, is_banned a bl = true -> expired c (tc a) bl a = false -> In a ct ->
   shard_down c (a_shard a) bl ct res.
 Proof. exact banned_bypassed. Qed.
 Print Assumptions c07_banned_bypassed.
 
 (** ... in the words of the property: as long as another replica of the shard is neither banned
     nor failing in this checkout, the banned one is not contacted at all. *)
-Theorem c07_banned_bypassed_while_other_up : forall c bl req shard order outs now res ct bl', wfc c -> reachable c bl ->
+Theorem c07_banned_bypassed_while_other_up : forall c bl req shard order outs tc bc res ct bl', wfc c -> reachable c bl ->
   wf_order c req shard order ->
-  get c req shard order outs now bl = (res, ct, bl') ->
-  forall a r, is_banned a bl = true -> expired c now bl a = false ->
+  get c req shard order outs tc bc bl = (res, ct, bl') ->
+  forall a r, is_banned a bl = true -> expired c (tc a) bl a = false ->
   In r (servers c) -> a_role r = Replica -> a_shard r = a_shard a ->
   ~ In r (keys bl) -> (~ In r ct \/ res = Ok r) ->
   ~ In a ct.
@@ -62,9 +62,9 @@ Print Assumptions c07_banned_bypassed_while_other_up.
     outcome (refused / connect timeout / busy pool, failed or timed-out health check) and, if it is
     a replica, is banned afterwards — unless the all-replicas-banned reset of its shard fired later
     in the same checkout (then the whole shard is down, see [shard_down]). *)
-Theorem c07_failover_silent_banned : forall c bl req shard order outs now res ct bl', wfc c -> reachable c bl ->
+Theorem c07_failover_silent_banned : forall c bl req shard order outs tc bc res ct bl', wfc c -> reachable c bl ->
   wf_order c req shard order ->
-  get c req shard order outs now bl = (res, ct, bl') ->
+  get c req shard order outs tc bc bl = (res, ct, bl') ->
   forall a, In a ct -> res <> Ok a ->
   failing (outs a) /\ (a_role a = Replica -> In a (keys bl') \/ shard_down c (a_shard a) bl ct res).
 Proof. exact failover_failed_is_banned. Qed.
@@ -73,11 +73,11 @@ Print Assumptions c07_failover_silent_banned.
 (** Failover is silent, part 2: if some candidate is usable (its checkout and health check would
     succeed, and it is not banned, or its ban has run out, or it is the primary), the checkout
     succeeds with a server that passes — the client sees no error, whatever else is broken. *)
-Theorem c07_failover_silent : forall c bl req shard order outs now res ct bl', reachable c bl ->
+Theorem c07_failover_silent : forall c bl req shard order outs tc bc res ct bl', reachable c bl ->
   wf_order c req shard order ->
-  get c req shard order outs now bl = (res, ct, bl') ->
+  get c req shard order outs tc bc bl = (res, ct, bl') ->
   effective_sel c shard <> SInvalid ->
-  (exists b, In b (candidates c req (effective_sel c shard)) /\ usable c now outs bl b) ->
+  (exists b, In b (candidates c req (effective_sel c shard)) /\ usable c tc outs bl b) ->
   exists b', res = Ok b' /\ passes (outs b') /\ ~ In b' (keys bl') /\
              In b' (candidates c req (effective_sel c shard)).
 Proof. exact failover_served. Qed.
@@ -86,17 +86,17 @@ Print Assumptions c07_failover_silent.
 (** A transaction is refused at checkout only if no server of the requested role in the target
     shard is usable: each candidate either would not pass (checkout or health check fails) or is a
     replica under a ban that has not run out. *)
-Theorem c07_refused_only_if_none_usable : forall c bl req shard order outs now ct bl', reachable c bl ->
+Theorem c07_refused_only_if_none_usable : forall c bl req shard order outs tc bc ct bl', reachable c bl ->
   wf_order c req shard order ->
-  get c req shard order outs now bl = (ErrAllDown, ct, bl') ->
+  get c req shard order outs tc bc bl = (ErrAllDown, ct, bl') ->
   forall b, In b (candidates c req (effective_sel c shard)) ->
-  good (outs b) = false \/ (is_banned b bl = true /\ expired c now bl b = false /\ a_role b = Replica).
+  good (outs b) = false \/ (is_banned b bl = true /\ expired c (tc b) bl b = false /\ a_role b = Replica).
 Proof. exact refused_only_if_none_usable. Qed.
 Print Assumptions c07_refused_only_if_none_usable.
 
 (** The only other refusal is an explicit shard number outside the pool. *)
-Theorem c07_invalid_shard_only : forall c bl req shard order outs now ct bl',
-  get c req shard order outs now bl = (ErrInvalidShard, ct, bl') ->
+Theorem c07_invalid_shard_only : forall c bl req shard order outs tc bc ct bl',
+  get c req shard order outs tc bc bl = (ErrInvalidShard, ct, bl') ->
   nshards c <> 1%nat /\ exists n, shard = Some n /\ (nshards c <= n)%nat /\ ct = [] /\ bl' = bl.
 Proof. exact invalid_shard_only. Qed.
 Print Assumptions c07_invalid_shard_only.
@@ -154,11 +154,11 @@ Print Assumptions c07_admin_ban_nonpositive.
 
 (** Question (b): a banned address that passes the gate is health-checked even if its connection
     is fresh, and is re-banned if the check fails. *)
-Theorem c07_unbanned_is_health_checked : forall c now outs a bl fresh h,
+Theorem c07_unbanned_is_health_checked : forall c tc bc outs a bl fresh h,
   is_banned a bl = true -> outs a = Conn fresh h -> h <> HcOk ->
-  match visit c now outs a bl with
+  match visit c tc bc outs a bl with
   | Skip b => b = bl
-  | Fail b => exists bl1, gate c now a bl = Some (true, bl1) /\ b = ban a FailedHealthCheck now bl1
+  | Fail b => exists bl1, gate c (tc a) a bl = Some (true, bl1) /\ b = ban a FailedHealthCheck (bc a) bl1
   | Done _ => False
   end.
 Proof. exact unbanned_is_health_checked. Qed.
@@ -194,6 +194,12 @@ Theorem c07_tie_orders_wf : forall c req shard order, NoDup (servers c) ->
 Proof. exact tie_orders_wf. Qed.
 Print Assumptions c07_tie_orders_wf.
 
+(** The health-check flags the tie compares are those of the contacted addresses of [get_loop]. *)
+Theorem c07_tie_trace_is_contacted : forall c tc bc outs todo bl,
+  map fst (trace_loop c tc bc outs todo bl) = snd (fst (get_loop c tc bc outs todo bl)).
+Proof. exact trace_loop_ct. Qed.
+Print Assumptions c07_tie_trace_is_contacted.
+
 (** * Examples: non-vacuity and the schedules of the review questions *)
 
 Definition P  := mkAddr 0 0 Primary 10.
@@ -208,18 +214,18 @@ Definition down1 (x : addr) : addr -> outcome := fun a => if addr_eq_dec a x the
 
 (** failover: R2 (popped first) refuses, R1 serves, R2 is banned, the client gets a server *)
 Example ex_failover :
-  get C3 (Some Replica) None [R3; R1; R2] (down1 R2) 100 [] = (Ok R1, [R2; R1], [(R2, (FailedCheckout, 100))]).
+  get C3 (Some Replica) None [R3; R1; R2] (down1 R2) (fun _ => 100) (fun _ => 100) [] = (Ok R1, [R2; R1], [(R2, (FailedCheckout, 100))]).
 Proof. vm_compute. reflexivity. Qed.
 
 (** bypass: while banned and not expired R2 is not contacted, whatever its position *)
 Example ex_bypass :
-  get C3 (Some Replica) None [R3; R1; R2] up 160 [(R2, (FailedCheckout, 100))] = (Ok R1, [R1], [(R2, (FailedCheckout, 100))]).
+  get C3 (Some Replica) None [R3; R1; R2] up (fun _ => 160) (fun _ => 160) [(R2, (FailedCheckout, 100))] = (Ok R1, [R1], [(R2, (FailedCheckout, 100))]).
 Proof. vm_compute. reflexivity. Qed.
 
 (** strict expiry: at exactly ban_time seconds still banned, one second later unbanned and used *)
 Example ex_expiry_strict :
   fst (try_unban C3 160 R2 [(R2, (FailedCheckout, 100))]) = false /\
-  get C3 (Some Replica) None [R3; R1; R2] up 161 [(R2, (FailedCheckout, 100))] = (Ok R2, [R2], []).
+  get C3 (Some Replica) None [R3; R1; R2] up (fun _ => 161) (fun _ => 161) [(R2, (FailedCheckout, 100))] = (Ok R2, [R2], []).
 Proof. vm_compute. auto. Qed.
 
 (** admin duration, not ban_time, governs an admin ban *)
@@ -234,7 +240,7 @@ Proof. vm_compute. reflexivity. Qed.
 
 (** a failing primary is not banned; with role = primary the transaction is refused *)
 Example ex_primary_down :
-  get C3 (Some Primary) None [P] (down1 P) 100 [] = (ErrAllDown, [P], []).
+  get C3 (Some Primary) None [P] (down1 P) (fun _ => 100) (fun _ => 100) [] = (ErrAllDown, [P], []).
 Proof. vm_compute. reflexivity. Qed.
 
 (** all replicas banned => the first one popped resets the shard; it is health-checked (forced),
@@ -243,13 +249,13 @@ Proof. vm_compute. reflexivity. Qed.
 Example ex_reset_then_unchecked :
   let bl := [(R1, (FailedCheckout, 100)); (R2, (FailedCheckout, 100))] in
   let outs := fun a => if addr_eq_dec a R2 then Conn true HcFail else Conn true HcFail in
-  get C2 (Some Replica) None [R1; R2] outs 101 bl = (Ok R1, [R2; R1], [(R2, (FailedHealthCheck, 101))]).
+  get C2 (Some Replica) None [R1; R2] outs (fun _ => 101) (fun _ => 101) bl = (Ok R1, [R2; R1], [(R2, (FailedHealthCheck, 101))]).
 Proof. vm_compute. reflexivity. Qed.
 
 (** with ONE replica a ban is void: the very next checkout that pops it resets the shard, even
     though the primary is another candidate (role = any) and no time has passed *)
 Example ex_single_replica_ban_void :
-  get C1 None None [P; R1] up 100 [(R1, (FailedCheckout, 100))] = (Ok R1, [R1], []).
+  get C1 None None [P; R1] up (fun _ => 100) (fun _ => 100) [(R1, (FailedCheckout, 100))] = (Ok R1, [R1], []).
 Proof. vm_compute. reflexivity. Qed.
 
 (** why [c07_banned_bypassed] speaks of [shard_down] and not of the ban list before the checkout
@@ -257,26 +263,33 @@ Proof. vm_compute. reflexivity. Qed.
     and R1 failed in this very checkout. *)
 Example ex_bypass_needs_shard_down :
   let outs := fun a => if addr_eq_dec a R3 then Conn false HcOk else ConnFail in
-  get C3 (Some Replica) None [R3; R1; R2] outs 101 [(R3, (FailedCheckout, 100))] = (Ok R3, [R2; R1; R3], []).
+  get C3 (Some Replica) None [R3; R1; R2] outs (fun _ => 101) (fun _ => 101) [(R3, (FailedCheckout, 100))] = (Ok R3, [R2; R1; R3], []).
 Proof. vm_compute. reflexivity. Qed.
 
 (** ... and why [c07_failover_silent_banned] has the same escape: R2 and R1 failed here and are
     NOT banned afterwards (the reset triggered by R3 wiped them). *)
 Example ex_failed_not_banned_after_reset :
   let outs := fun a => if addr_eq_dec a R3 then Conn false HcOk else ConnFail in
-  let '(_, _, bl') := get C3 (Some Replica) None [R3; R1; R2] outs 101 [(R3, (FailedCheckout, 100))] in
+  let '(_, _, bl') := get C3 (Some Replica) None [R3; R1; R2] outs (fun _ => 101) (fun _ => 101) [(R3, (FailedCheckout, 100))] in
   is_banned R1 bl' = false /\ is_banned R2 bl' = false.
 Proof. vm_compute. auto. Qed.
 
+(** the two clock readings of one address differ: R2's ban is found expired at second 161 and the
+    re-ban after the failed forced health check is stamped 162 *)
+Example ex_two_clock_readings :
+  get C3 (Some Replica) None [R1; R3; R2] (fun a => if addr_eq_dec a R2 then Conn true HcTimeout else Conn false HcOk)
+      (fun _ => 161) (fun _ => 162) [(R2, (FailedCheckout, 100))] = (Ok R3, [R2; R3], [(R2, (FailedHealthCheck, 162))]).
+Proof. vm_compute. reflexivity. Qed.
+
 (** refusal: every replica down and role = replica *)
 Example ex_all_down :
-  get C2 (Some Replica) None [R1; R2] (fun _ => ConnFail) 100 [] =
+  get C2 (Some Replica) None [R1; R2] (fun _ => ConnFail) (fun _ => 100) (fun _ => 100) [] =
     (ErrAllDown, [R2; R1], [(R1, (FailedCheckout, 100)); (R2, (FailedCheckout, 100))]).
 Proof. vm_compute. reflexivity. Qed.
 
 (** role = any falls back to the primary when both replicas are down *)
 Example ex_any_falls_back_to_primary :
-  get C2 None None [P; R1; R2] (fun a => if addr_eq_dec a P then Conn false HcOk else ConnFail) 100 [] =
+  get C2 None None [P; R1; R2] (fun a => if addr_eq_dec a P then Conn false HcOk else ConnFail) (fun _ => 100) (fun _ => 100) [] =
     (Ok P, [R2; R1; P], [(R1, (FailedCheckout, 100)); (R2, (FailedCheckout, 100))]).
 Proof. vm_compute. reflexivity. Qed.
 
@@ -297,7 +310,7 @@ Proof. vm_compute. reflexivity. Qed.
 (** the hypotheses of the theorems are satisfiable: a reachable non-empty state *)
 Example ex_reachable : reachable C3 [(R2, (FailedCheckout, 100))].
 Proof.
-  exists [Get (Some Replica) None [R3; R1; R2] (down1 R2) 100]. split; [|vm_compute; reflexivity].
+  exists [Get (Some Replica) None [R3; R1; R2] (down1 R2) (fun _ => 100) (fun _ => 100)]. split; [|vm_compute; reflexivity].
   constructor; [|constructor]. cbn. split.
   - repeat constructor; cbn; intuition discriminate.
   - intros a. vm_compute. tauto.
